@@ -81,6 +81,22 @@ pub fn exec(t: &[&str]) -> Option<String> {
             "u" => Some(hex(format!("{}", Amount::from_pico(a.parse::<u64>().ok()?)).as_bytes())),
             "s" => Some(hex(format!("{}", SignedAmount::from_pico(a.parse::<i64>().ok()?)).as_bytes())),
             _ => None },
+        // `Display` through a format spec that carries FLAGS. The library's `Display` impls consult no flag (they write the value and the
+        // suffix through the formatter as a plain sink), so every spec must print exactly what `{}` prints: the exact expansion with twelve
+        // decimals and ` xmr`. (A `Formatter::pad`-based rewrite would truncate under a precision and pad under a width.)
+        ["c15_display_flags", ty, flag, a] => {
+            use std::fmt::Write as _;
+            macro_rules! fl { ($x:expr) => {{ let x = $x; let s: String = match *flag {
+                "p0" => format!("{:.0}", x), "p1" => format!("{:.1}", x), "p4" => format!("{:.4}", x), "p12" => format!("{:.12}", x), "p13" => format!("{:.13}", x), "p40" => format!("{:.40}", x),
+                "w30r" => format!("{:>30}", x), "w5l" => format!("{:<5}", x), "w40c" => format!("{:^40}", x), "w1" => format!("{:1}", x), "w60" => format!("{:60}", x),
+                "z30" => format!("{:030}", x), "z3" => format!("{:03}", x), "plus" => format!("{:+}", x), "alt" => format!("{:#}", x), "fill" => format!("{:*<40}", x), "fillr" => format!("{:0>45}", x),
+                "w30p4" => format!("{:>30.4}", x), "plusz" => format!("{:+030.2}", x), "altz" => format!("{:#025.6}", x),
+                "pstar" => format!("{:.*}", 3, x), "pdollar" => { let p = 2usize; format!("{:.p$}", x) } "wdollar" => { let w = 33usize; format!("{:>w$}", x) } "wpdollar" => { let (w, p) = (28usize, 5usize); format!("{:<w$.p$}", x) }
+                "tostring" => x.to_string(), "write" => { let mut b = String::new(); write!(b, "{:.3}", x).unwrap(); b } "writeln" => { let mut b = String::new(); write!(b, "{:>20.1}|{:<4}", x, x).unwrap(); match b.split_once('|') { Some((l, r)) if l == r => l.to_string(), _ => return Some(format!("MISMATCH two flagged specs in one write! differ or contain the separator: {:?}", b)) } }
+                _ => return None };
+                Some(hex(s.as_bytes())) }} }
+            match *ty { "u" => fl!(Amount::from_pico(a.parse::<u64>().ok()?)), "s" => fl!(SignedAmount::from_pico(a.parse::<i64>().ok()?)), _ => None }
+        }
         // `Denomination::from_str` alone: the name of the denomination, or `err`
         ["c15_denom", h] => {
             let b = unhex(h);
@@ -408,6 +424,77 @@ pub fn run(o: &mut Out, tier: &str, seed: u64) {
             let r = o.op(format!("c15_parse_denom {} {}", ty, hex(format!("{} {}", l, name).as_bytes())), true);
             o.direct(r == "err", "a literal with a leading '+' is refused by FromStr", format!("{:?}", format!("{} {}", l, name)), r.clone(), "err".into()); n_plus += 1; } }
     } }
+    // ---- added on request (review round 2) ---------------------------------------------------------------------------------------
+    // (R1) `Display` / `format!` with FLAGS: every flag spec on every stated boundary value of both types (and a random sample) must print
+    // what plain `{}` prints — compared with model and spec by the op line, and with the plain `{}` text directly
+    const FLAGS: [&str; 27] = ["p0", "p1", "p4", "p12", "p13", "p40", "w30r", "w5l", "w40c", "w1", "w60", "z30", "z3", "plus", "alt", "fill", "fillr", "w30p4", "plusz", "altz", "pstar", "pdollar", "wdollar", "wpdollar", "tostring", "write", "writeln"];
+    let mut n_flags = 0usize;
+    let mut fu: Vec<u64> = us[..n_boundary_us].to_vec(); let mut fs: Vec<i64> = ss[..n_fixed_ss].to_vec();
+    for &x in &[123_456_789_012_345u64, 1_000_000_000_000, 1, 0, 999_999_999_999, 1_234_567_890_123_456] { fu.push(x); fs.push(x as i64); fs.push(-(x as i64)); }
+    for _ in 0..(if thorough { 2_000 } else { 60 }) { let v = rng.next() >> rng.below(64); fu.push(v); fs.push((v as i64).wrapping_neg()); fs.push((v >> 1) as i64); }
+    for (i, &a) in fu.iter().enumerate() {
+        let plain = format!("{}", Amount::from_pico(a));
+        for (j, fl) in FLAGS.iter().enumerate() {
+            if i >= 24 && (i + j) % 3 != 0 { continue; }                       // the first 24 values meet every flag, the rest a third of them (rotating)
+            let h = o.op(format!("c15_display_flags u {} {}", fl, a), true); n_flags += 1;
+            o.direct(text_of(&h) == plain, "Display with a flagged format spec prints what `{}` prints (unsigned)", format!("{} {}", fl, a), text_of(&h), plain.clone());
+        }
+    }
+    for (i, &a) in fs.iter().enumerate() {
+        let plain = format!("{}", SignedAmount::from_pico(a));
+        for (j, fl) in FLAGS.iter().enumerate() {
+            if i >= 24 && (i + j) % 3 != 0 { continue; }
+            let h = o.op(format!("c15_display_flags s {} {}", fl, a), true); n_flags += 1;
+            o.direct(text_of(&h) == plain, "Display with a flagged format spec prints what `{}` prints (signed)", format!("{} {}", fl, a), text_of(&h), plain.clone());
+        }
+    }
+    o.stat_n("display.flags", n_flags as u64);
+    // (R2) digits BEFORE the sign: `<zeros or digits>-<body>` is not a literal of the grammar (the sign is recognised at position 0 only):
+    // refused by `from_str_in` in every denomination for both types and by `FromStr` with every kind of suffix
+    let mut n_presign = 0usize;
+    let heads = ["0", "00", "000", "0000000000", "1", "10", "0.", "00.", ".", "-0", "-00", "0-0", " ", "+0"];
+    let bodies: Vec<String> = ["5", "1.5", ".5", "0", "0.0", "1", "", ".", "0.000000000001", "1.000000000000", "9223372036854775807", "9223372.036854775807", "421", "00", "05"].iter().map(|x| x.to_string())
+        .chain((0..6).map(|_| rng.pick(&goods).trim_start_matches('-').to_string())).collect();
+    for h in heads { for b in &bodies {
+        let l = format!("{}-{}", h, b); if l.len() > 50 { continue; }
+        for (dn, d, _) in DENOMS.iter() { for ty in ["u", "s"] {
+            let r = o.op(format!("c15_parse {} {} {}", ty, dn, hex(l.as_bytes())), true); n_presign += 1;
+            o.stat(&format!("parse.presign.{}", if r.starts_with("ok") { "ok" } else { "err" }));
+            o.direct(r == "err", "a `-` that is not the first character is refused (digits before the sign)", format!("{} {} {:?}", ty, dn, l), r.clone(), "err".into());
+            let _ = d;
+        } }
+        for name in ["xmr", "XMR", "monero", "millinero", "µXMR", "nXMR", "piconero", "pXMR"] { for ty in ["u", "s"] {
+            let r = o.op(format!("c15_parse_denom {} {}", ty, hex(format!("{} {}", l, name).as_bytes())), true); n_presign += 1;
+            o.direct(r == "err", "a literal with digits before the sign is refused by FromStr", format!("{:?}", format!("{} {}", l, name)), r.clone(), "err".into());
+        } }
+    } }
+    // (R3) values in [2^64, 2^64 + 10^k) written WITH a fractional part, in every denomination: the piconero value V = M * 10^(dec-f) of the
+    // literal (M = all its digits, f = its fraction digits, dec = decimals of the denomination) is the smallest multiple of 10^(dec-f) that
+    // is >= 2^64, plus small / random offsets — so that V mod 2^64 is tiny and would pass the 2^63-1 cap if anything wrapped: in the digit
+    // loop (f = dec), in the rescale loop (f < dec), or in a split integer-part / fraction-part evaluation. Must be `TooBig` for both
+    // types, with and without `-`, never a value; also run in the four other denominations and through the suffix form.
+    use monero::util::amount::ParsingError;
+    let mut n_wrapfrac = 0usize;
+    for (dn, d, dec) in DENOMS.iter() { for f in (if *dec == 0 { 0..=0usize } else { 1..=*dec }) {
+        let j = (*dec - f) as u32; let step = 10u128.pow(j); let base = ((1u128 << 64) + step - 1) / step;          // ceil(2^64 / 10^j)
+        let span = (10u128.pow(*dec as u32) / step).max(1);                                                        // offsets keeping V < 2^64 + 10^dec
+        let mut offs: Vec<u128> = vec![0, 1, 2, 9, span - 1, span / 2]; for _ in 0..(if thorough { 12 } else { 3 }) { offs.push(rng.next() as u128 % span); }
+        offs.retain(|x| *x < span); offs.sort(); offs.dedup();
+        for off in offs { let m = base + off; let ds = m.to_string();
+            let mut variants: Vec<String> = vec![if f == 0 { ds.clone() } else { with_point(&ds, f) }];
+            if f == 0 { variants.push(format!("{}.", ds)); }
+            if rng.chance(1, 2) { variants.push(format!("0{}", variants[0])); }
+            for body in variants { for neg in [false, true] {
+                let l = if neg { format!("-{}", body) } else { body.clone() }; if l.len() > 50 { continue; }
+                for (dn2, _, _) in DENOMS.iter() { for ty in ["u", "s"] { let r = o.op(format!("c15_parse {} {} {}", ty, dn2, hex(l.as_bytes())), true); o.stat(&format!("parse.wrapfrac.{}", if r.starts_with("ok") { "ok" } else { "err" })); n_wrapfrac += 1; } }
+                for ty in ["u", "s"] { o.op(format!("c15_parse_denom {} {}", ty, hex(format!("{} {}", l, Denomination::to_string(d)).as_bytes())), true); n_wrapfrac += 1; }
+                let (l1, l2, dd) = (l.clone(), l.clone(), *d);
+                let ru = guarded(move || Amount::from_str_in(&l1, dd).map(|a| a.as_pico())); let rs = guarded(move || SignedAmount::from_str_in(&l2, dd).map(|a| a.as_pico()));
+                o.direct(ru == Ok(Err(ParsingError::TooBig)) && rs == Ok(Err(ParsingError::TooBig)), "a literal whose exact value lies in [2^64, 2^64 + 10^decimals) is TooBig for both types (never wrapped)", format!("{} {:?}", dn, l), format!("{:?} / {:?}", ru, rs), "Err(TooBig) / Err(TooBig)".into());
+            } }
+        }
+    } }
+    o.notes.push(format!("added (round 2): {} Display operations through {} flagged format specs (precision, width, alignment, fill, zero padding, +, #, runtime width / precision, to_string, write!) on the complete boundary sets of both types, each also compared directly with the plain {{}} text; {} strings with digits (or other characters) before the sign through from_str_in and FromStr, each required to be refused; {} operations on literals whose exact value lies in [2^64, 2^64 + 10^decimals) written with every possible number of fraction digits in every denomination, with the error kind TooBig checked directly", n_flags, FLAGS.len(), n_presign, n_wrapfrac));
     o.notes.push(format!("added on request: {} stateful sequences (formatting into a failing sink then formatting normally; a failing parse then another parse), {} '+'-signed strings through from_str_in and FromStr, signed values strictly between -1 unit and 0 of every denomination in the complete boundary set (formatting, suffix, Display, round trips)", n_seq, n_plus));
     o.notes.push(format!("added: {} systematic `<literal> <spelling>` suffix cases, {} near-name strings (alone and behind the literal 1), Display of every boundary value, value-preserving rewrites of every formatted string checked directly; signed and unsigned boundary sets are now run completely", n_suffix, near.len()));
     o.notes.push(format!("{} literals + {} junk strings x 5 denominations x {{u,s}}; {} suffix strings x {{u,s}}; formatting on {} unsigned / {} signed values (boundary set complete, random part sampled per denomination); non-trivial = grammatical literal or a single mutation of one (parse), every suffix / formatting case", lits.len(), junks.len(), n_denom, us.len(), ss.len()));
